@@ -184,7 +184,9 @@ fn inject(h: &mut Host, b: &Bad) -> Option<(bool, bool)> {
             Some((r.is_err(), true))
         }
         Bad::BindTwice => {
-            let name = h.meta.externals.first().map(|(n, _)| n.clone())?;
+            // (an external that the history has unbound may be bound again: only a binding
+            // that is still in place makes the call invalid)
+            let name = h.meta.externals.iter().map(|(n, _)| n.clone()).find(|n| h.bound.contains(n))?;
             if h.cfg.bind_externals.is_none() {
                 return None;
             }
@@ -329,7 +331,23 @@ pub fn exec(case: &J, acc: &mut Acc) -> Result<(), Fail> {
     if fuel {
         return Ok(());
     }
-    if let Some((i, a, b)) = first_diff(&reference.trace, &trace) {
+    // (the message about several unbound externals lists them in hash order: a diagnostic
+    // text, sorted here before the comparison)
+    let norm = |t: &[Obs]| -> Vec<Obs> {
+        t.iter()
+            .map(|o| match o {
+                Obs::Err { kind, msg } if msg.contains("Missing function binding for externals: '") => {
+                    let (head, rest) = msg.split_once("externals: '").unwrap();
+                    let (list, tail) = rest.split_once('\'').unwrap_or((rest, ""));
+                    let mut names: Vec<&str> = list.split(", ").collect();
+                    names.sort();
+                    Obs::Err { kind: kind.clone(), msg: format!("{head}externals: '{}'{tail}", names.join(", ")) }
+                }
+                o => o.clone(),
+            })
+            .collect()
+    };
+    if let Some((i, a, b)) = first_diff(&norm(&reference.trace), &norm(&trace)) {
         return Err(Fail::violation(
             "later-behaviour-differs",
             format!(
@@ -398,6 +416,7 @@ pub fn run(env: &Env) -> i32 {
         set_var: 3,
         eval: 2,
         observe: 6,
+        binds: 5,
         ..HistProfile::default()
     };
     let n = env.cases(8000, 200000);
